@@ -55,6 +55,11 @@ CmpOutcomes(e) ==
      ELSE IF e.fn = "wcsncmp_s" /\ e.n = HUGE THEN {WithSg(QOk(e), 2)} \cup QErrs(e, {ESLEMAX})
      ELSE IF e.fn = "strcmpfld_s" THEN {WithSg(QOk(e), CmpMem(e.pre, e.d, e.s, e.dmax))}
      ELSE {WithSg(QOk(e), CmpStr(e.pre, e.d, e.s, n, e.fn = "strcasecmp_s"))}
+          \* documented for strcmp_s: ESUNTERM when src is unterminated - detectable only with a known object size of src,
+          \* when the comparison would have to run past it
+          \cup (IF e.fn = "strcmp_s" /\ e.sbos # UNK /\ e.sbos > 0 /\ ScanLen(e.pre, e.s, e.sbos) >= e.sbos
+                   /\ CmpStr(e.pre, e.d, e.s, Min(n, e.sbos), FALSE) = 0 /\ n >= e.sbos
+                THEN QErrs(e, {ESUNTERM}) ELSE {})
 
 MemCmpOutcomes(e) ==
   LET V == QViol(e, TRUE, TRUE) IN
